@@ -201,10 +201,16 @@ def transact_lemma(kind):
         hdr = dict(E.get(f, '_header'))
         buf = E.get(f, '_buffer')
         exp = E.int('expected_response_length', 4, 300) if E.choice('length_predicted', [True, False]) else None
-        out = E.attempt(lambda: E.method(tm, '_transact', req, exp, full=E.bool('full'), broadcast=False))
+        full = E.bool('full')
+        out = E.attempt(lambda: E.method(tm, '_transact', req, exp, full=full, broadcast=False))
         if out.ok:
             r = out.value
             E.prove('transact:returns-(bytes,exception-or-None)', isinstance(r, tuple) and len(r) == 2)
+            if isinstance(r, tuple) and len(r) == 2 and not full and len(wire.reads) >= 1:
+                # a transaction that ends in silence closes the connection: the reply, should it still arrive, is then not
+                # waiting in the socket for the next transaction to mistake for its own
+                E.prove('transact:silence->connection-closed(a-late-reply-cannot-reach-the-next-transaction)',
+                        L.Implies(L.length(wire.reads[0][1]) == 0, L.And(wire.closes >= 1, L.length(r[0]) == 0)))
             if E.mode == 'symbolic' and isinstance(r, tuple):
                 E.prove('transact:what-it-returns-is-what-the-reads-of-this-call-returned-or-nothing',
                         L.Or(L.length(r[0]) == 0, L.eq(r[0], L.concat(*[d for (sz, d) in wire.reads]) if wire.reads else [])))
